@@ -179,9 +179,9 @@ def run(tier):
             "samples": agg.samples or ["(none)"],
             "static_clause": static_info,
             "sweep": dict(sweep_info, complete=sweep_complete,
-                          axes="state {valid, missing, stale_benign, stale_foreign, old_version, old_version_foreign, as_found} x {writable, unwritable(EACCES)} x 4 workload chunks, plus each state once under python -O, plus {missing, stale_benign, stale_foreign, old_version} x kill -9 at {start of regeneration, just before the table write} followed by a restart on what was left"),
+                          axes="state {valid, missing, stale_benign, stale_foreign, old_version, old_version_foreign, as_found} x {writable, unwritable(EACCES)} x 4 workload chunks, plus each state once under python -O, plus {missing, stale_benign, stale_foreign, old_version} x kill -9 at {start of regeneration, just before the table write} followed by a restart on what was left, plus {valid, missing, stale_foreign, old_version} met by the command-line entry point, plus {valid, missing, stale_foreign} with leftovers of an older release (foreign lextab.py, parser.out) next to the cache"),
             "foreign_table": foreign,
-            "faults_fired": {k: v for k, v in sorted(agg.stats.items()) if k.startswith(("state_", "write_fault", "interp_", "crash_"))},
+            "faults_fired": {k: v for k, v in sorted(agg.stats.items()) if k.startswith(("state_", "write_fault", "interp_", "crash_", "artefacts_", "entry_"))},
             "probes": {k: agg.stats[k] for k in ("incarnations", "items_parsed", "outcomes_compared", "cache_rewritten",
                                                  "started_with_invalid_cache", "cache_repaired", "subclass_probes", "subclass_items_differing_from_base", "tables_in_use_checked", "overlap_groups_checked",
                                                  "subclass_unavailable")},
